@@ -1,6 +1,11 @@
 import FeatModel.Lemmas.C01Csr
 import FeatModel.Lemmas.C01Dense
 import FeatModel.Lemmas.C01Banded
+import FeatModel.Lemmas.C01Cscr
+import FeatModel.Lemmas.C01Bcsr
+import FeatModel.Lemmas.C01Sizes
+import FeatModel.Lemmas.C01Meta
+import FeatModel.Model.LA.Cscr
 import Mathlib.Algebra.Order.Field.Rat
 import Mathlib.Algebra.Order.Ring.Abs
 import Mathlib.Algebra.Order.BigOperators.Group.Finset
@@ -331,6 +336,409 @@ theorem C01.banded_applyAxpyQ_spec (A : Banded Rat) (hA : A.wf = true) (x y r : 
 theorem C01.banded_transposed_not_offered {α : Type} [Field α] (tiny : α → Bool) (A : Banded α) (x r : Array α) :
     A.apply tiny x r true = none := by
   simp [Banded.apply]
+
+/-- `cscr_generic`, non-transposed, stored row `nz0` (matrix row `rowNumbers[nz0]`): `a·(A x)_i + b·y_i`. -/
+theorem C01.cscr_kernel_listed_eq {α : Type} [Field α] (tiny : α → Bool) (A : Cscr α) (hA : A.wf = true) (a b : α)
+    (x y r : Array α) (ali : Bool) (hr : r.size = A.rows) (hy : y.size = A.rows) (nz0 : Nat) (hnz : nz0 < A.usedRows) :
+    (A.kernel tiny a b x y r ali false).getD (A.rowNumbers.getD nz0 0) 0
+      = a * (∑ j ∈ range A.cols, A.entry (A.rowNumbers.getD nz0 0) j * x.getD j 0)
+        + (if tiny b then 0 else b * (if ali then r else y).getD (A.rowNumbers.getD nz0 0) 0) := by
+  have h := (Cscr.wf_iff A).mp hA
+  have hi := h.rnLt nz0 hnz
+  have hs0 : (initR tiny A.rows b r y ali).size = A.rows := initR_size _ _ _ _ _ _ hr hy
+  have hk : A.kernel tiny a b x y r ali false = Cscr.rowLoop A a b x (initR tiny A.rows b r y ali) := by
+    simp [Cscr.kernel, Cscr.rowLoop]
+  rw [hk, (Cscr.rowLoop_facts h a b x _ _ (by rw [hs0]; exact hi)).2 nz0 hnz rfl, Cscr.rowdot_listed h x hnz,
+    initR_getD _ _ _ _ _ _ _ hi]
+  split <;> ring
+
+/-- `cscr_generic`, non-transposed, a row that is not stored: the loop does not visit it, `r_i` keeps the
+    (unscaled) `y_i` resp. 0, and the row of the represented matrix is zero. The containers call the kernel with
+    `b ∈ {0, 1}` only, where this is `a·(A x)_i + b·y_i`. -/
+theorem C01.cscr_kernel_unlisted_eq {α : Type} [Field α] (tiny : α → Bool) (A : Cscr α) (hA : A.wf = true) (a b : α)
+    (x y r : Array α) (ali : Bool) (hr : r.size = A.rows) (hy : y.size = A.rows) (i : Nat) (hi : i < A.rows)
+    (hno : ∀ nz, nz < A.usedRows → A.rowNumbers.getD nz 0 ≠ i) :
+    (A.kernel tiny a b x y r ali false).getD i 0 = (if tiny b then 0 else (if ali then r else y).getD i 0)
+      ∧ ∀ j, A.entry i j = 0 := by
+  have h := (Cscr.wf_iff A).mp hA
+  have hs0 : (initR tiny A.rows b r y ali).size = A.rows := initR_size _ _ _ _ _ _ hr hy
+  have hk : A.kernel tiny a b x y r ali false = Cscr.rowLoop A a b x (initR tiny A.rows b r y ali) := by
+    simp [Cscr.kernel, Cscr.rowLoop]
+  refine ⟨?_, Cscr.entry_unlisted hno⟩
+  rw [hk, (Cscr.rowLoop_facts h a b x _ _ (by rw [hs0]; exact hi)).1 hno, initR_getD _ _ _ _ _ _ _ hi]
+
+/-- `cscr_generic`, transposed: `r_j = a·(Aᵀ x)_j + b·y_j` for `a ≠ 0`. -/
+theorem C01.cscr_kernelT_eq {α : Type} [Field α] (tiny : α → Bool) (A : Cscr α) (hA : A.wf = true) (a b : α) (ha : a ≠ 0)
+    (x y r : Array α) (ali : Bool) (hr : r.size = A.cols) (hy : y.size = A.cols) (j : Nat) (hj : j < A.cols) :
+    (A.kernel tiny a b x y r ali true).getD j 0
+      = a * (∑ i ∈ range A.rows, A.entry i j * x.getD i 0)
+        + (if tiny b then 0 else b * (if ali then r else y).getD j 0) := by
+  have h := (Cscr.wf_iff A).mp hA
+  have hs0 : (initR tiny A.cols b r y ali).size = A.cols := initR_size _ _ _ _ _ _ hr hy
+  have hk : A.kernel tiny a b x y r ali true
+      = (Cscr.scatterT A x ((initR tiny A.cols b r y ali).map (b / a * ·))).map (a * ·) := by
+    simp [Cscr.kernel, Cscr.scatterT]
+  rw [hk, getD_map _ _ _ (by rw [Cscr.scatterT_size, Array.size_map, hs0]; exact hj),
+    Cscr.scatterT_getD h _ _ (by rw [Array.size_map, hs0]; exact hj),
+    getD_map _ _ _ (by rw [hs0]; exact hj), initR_getD _ _ _ _ _ _ _ hj]
+  split
+  · ring
+  · field_simp
+    ring
+
+/-- `SparseMatrixCSCR::apply(r, x)` / `apply_transposed(r, x)` at ℚ: exact, for stored and non-stored rows alike,
+    including the `used_elements() == 0` early-out. -/
+theorem C01.cscr_applyQ_spec (A : Cscr Rat) (hA : A.wf = true) (x r : Array Rat) (tr : Bool)
+    (hr : r.size = if tr then A.cols else A.rows) (hx : x.size = if tr then A.rows else A.cols) :
+    ∃ r', A.applyQ x r tr = some r' ∧
+      ∀ i, i < (if tr then A.cols else A.rows) → r'.getD i 0 =
+        (if tr then ∑ k ∈ range A.rows, A.entry k i * x.getD k 0 else ∑ k ∈ range A.cols, A.entry i k * x.getD k 0) := by
+  have h := (Cscr.wf_iff A).mp hA
+  have ht0 := C01.tinyRat_zero_one.1
+  have hzero : A.usedElements = 0 → ∀ i j, A.entry i j = 0 := by
+    intro h0 i j
+    rw [Cscr.entry_eq_sum]
+    apply Finset.sum_eq_zero
+    intro nz hnz
+    rw [Csr.entry_eq_zero_of_empty h.csr h0 (Finset.mem_range.mp hnz)]
+    simp
+  by_cases h0 : A.usedElements = 0
+  · refine ⟨Array.replicate r.size 0, by cases tr <;> simp_all [Cscr.applyQ, Cscr.apply], ?_⟩
+    intro i hi
+    rw [getD_replicate _ _ (by rw [hr]; exact hi)]
+    cases tr <;> simp [hzero h0]
+  · cases tr
+    · simp only [Bool.false_eq_true, if_false] at hr hx ⊢
+      refine ⟨A.kernel (tinyRat epsQ) 1 0 x r r true false, by simp [Cscr.applyQ, Cscr.apply, hr, hx, h0], ?_⟩
+      intro i hi
+      by_cases hl : ∃ nz, nz < A.usedRows ∧ A.rowNumbers.getD nz 0 = i
+      · obtain ⟨nz, hnz, rfl⟩ := hl
+        rw [C01.cscr_kernel_listed_eq (tinyRat epsQ) A hA 1 0 x r r true hr hr nz hnz, ht0]
+        simp
+      · have hno : ∀ nz, nz < A.usedRows → A.rowNumbers.getD nz 0 ≠ i := fun nz hnz he => hl ⟨nz, hnz, he⟩
+        obtain ⟨e1, e2⟩ := C01.cscr_kernel_unlisted_eq (tinyRat epsQ) A hA 1 0 x r r true hr hr i hi hno
+        rw [e1, ht0]
+        simp [e2]
+    · simp only [if_true] at hr hx ⊢
+      refine ⟨A.kernel (tinyRat epsQ) 1 0 x r r true true, by simp [Cscr.applyQ, Cscr.apply, hr, hx, h0], ?_⟩
+      intro j hj
+      rw [C01.cscr_kernelT_eq (tinyRat epsQ) A hA 1 0 one_ne_zero x r r true hr hr j hj, ht0]
+      simp
+
+/-- `SparseMatrixCSCR::apply(r, x, y, alpha)` / `apply_transposed(r, x, y, alpha)` at ℚ, `|alpha| ≥ eps`:
+    `r = y + alpha·A x` (resp. `Aᵀ`), with or without `r` aliasing `y`; non-stored rows return `y_i`. -/
+theorem C01.cscr_applyAxpyQ_spec (A : Cscr Rat) (hA : A.wf = true) (x y r : Array Rat) (alpha : Rat)
+    (hal : epsQ ≤ |alpha|) (ali tr : Bool)
+    (hr : r.size = if tr then A.cols else A.rows) (hy : y.size = if tr then A.cols else A.rows)
+    (hx : x.size = if tr then A.rows else A.cols) (hry : ali = true → r = y) :
+    ∃ r', A.applyAxpyQ x y r alpha ali tr = some r' ∧
+      ∀ i, i < (if tr then A.cols else A.rows) → r'.getD i 0 = y.getD i 0 + alpha *
+        (if tr then ∑ k ∈ range A.rows, A.entry k i * x.getD k 0 else ∑ k ∈ range A.cols, A.entry i k * x.getD k 0) := by
+  have h := (Cscr.wf_iff A).mp hA
+  have ht1 := C01.tinyRat_zero_one.2
+  have ht : tinyRat epsQ alpha = false := by
+    rw [Bool.eq_false_iff]; intro h; exact absurd ((C01.tinyRat_iff _ _).mp h) (not_lt.mpr hal)
+  have ha0 : alpha ≠ 0 := by
+    intro h0; rw [h0, C01.tinyRat_zero_one.1] at ht; exact Bool.noConfusion ht
+  have hyy : (if ali then r else y) = y := by
+    cases ali
+    · rfl
+    · exact hry rfl
+  have hzero : A.usedElements = 0 → ∀ i j, A.entry i j = 0 := by
+    intro h0 i j
+    rw [Cscr.entry_eq_sum]
+    apply Finset.sum_eq_zero
+    intro nz hnz
+    rw [Csr.entry_eq_zero_of_empty h.csr h0 (Finset.mem_range.mp hnz)]
+    simp
+  by_cases h0 : A.usedElements = 0
+  · refine ⟨if ali then r else y, by cases tr <;> simp_all [Cscr.applyAxpyQ, Cscr.applyAxpy], ?_⟩
+    intro i hi
+    rw [hyy]
+    cases tr <;> simp [hzero h0]
+  · cases tr
+    · simp only [Bool.false_eq_true, if_false] at hr hy hx ⊢
+      refine ⟨A.kernel (tinyRat epsQ) alpha 1 x y r ali false,
+        by simp [Cscr.applyAxpyQ, Cscr.applyAxpy, hr, hy, hx, h0, ht], ?_⟩
+      intro i hi
+      by_cases hl : ∃ nz, nz < A.usedRows ∧ A.rowNumbers.getD nz 0 = i
+      · obtain ⟨nz, hnz, rfl⟩ := hl
+        rw [C01.cscr_kernel_listed_eq (tinyRat epsQ) A hA alpha 1 x y r ali hr hy nz hnz, hyy, ht1]
+        simp; ring
+      · have hno : ∀ nz, nz < A.usedRows → A.rowNumbers.getD nz 0 ≠ i := fun nz hnz he => hl ⟨nz, hnz, he⟩
+        obtain ⟨e1, e2⟩ := C01.cscr_kernel_unlisted_eq (tinyRat epsQ) A hA alpha 1 x y r ali hr hy i hi hno
+        rw [e1, hyy, ht1]
+        simp [e2]
+    · simp only [if_true] at hr hy hx ⊢
+      refine ⟨A.kernel (tinyRat epsQ) alpha 1 x y r ali true,
+        by simp [Cscr.applyAxpyQ, Cscr.applyAxpy, hr, hy, hx, h0, ht], ?_⟩
+      intro j hj
+      rw [C01.cscr_kernelT_eq (tinyRat epsQ) A hA alpha 1 ha0 x y r ali hr hy j hj, hyy, ht1]
+      simp; ring
+
+/-- `bcsr_generic<BH, BW>` for every block shape: on the pod arrays `r_p = a·(A x)_p + b·y_p` where `A` is the
+    scalar (rows·BH)×(cols·BW) matrix the blocks represent (`Tiny` block products `add_mat_vec_mult`). -/
+theorem C01.bcsr_kernel_eq {α : Type} [Field α] (tiny : α → Bool) (A : Bcsr α) (hA : A.wf = true)
+    (hbh : 0 < A.bh) (hbw : 0 < A.bw) (a b : α) (x y r : Array α) (ali : Bool) (p : Nat) (hp : p < A.rows * A.bh) :
+    (A.kernel tiny a b x y r ali).getD p 0
+      = a * (∑ c ∈ range (A.cols * A.bw), A.entry p c * x.getD c 0)
+        + (if tiny b then 0 else b * (if ali then r else y).getD p 0) := by
+  have h := (Bcsr.wf_iff A).mp hA
+  simp only [Bcsr.kernel]
+  rw [getD_ofFn _ p hp, Bcsr.blockRowSum_eq h hbh hbw x hp, initR_getD _ _ _ _ _ _ _ hp]
+  split <;> ring
+
+/-- `bcsr_transposed_generic<BH, BW>` (`add_vec_mat_mult` scatter with the `b/a` trick): `r_q = a·(Aᵀ x)_q + b·y_q`
+    for `a ≠ 0`, every block shape. -/
+theorem C01.bcsrT_kernel_eq {α : Type} [Field α] (tiny : α → Bool) (A : Bcsr α) (hA : A.wf = true)
+    (hbh : 0 < A.bh) (hbw : 0 < A.bw) (a b : α) (ha : a ≠ 0) (x y r : Array α) (ali : Bool)
+    (hr : r.size = A.cols * A.bw) (hy : y.size = A.cols * A.bw) (q : Nat) (hq : q < A.cols * A.bw) :
+    (A.kernelT tiny a b x y r ali).getD q 0
+      = a * (∑ p ∈ range (A.rows * A.bh), A.entry p q * x.getD p 0)
+        + (if tiny b then 0 else b * (if ali then r else y).getD q 0) := by
+  have h := (Bcsr.wf_iff A).mp hA
+  have hs0 : (initR tiny (A.cols * A.bw) b r y ali).size = A.cols * A.bw := initR_size _ _ _ _ _ _ hr hy
+  have hk : A.kernelT tiny a b x y r ali
+      = (Bcsr.scatterT A x ((initR tiny (A.cols * A.bw) b r y ali).map (b / a * ·))).map (a * ·) := by
+    simp [Bcsr.kernelT, Bcsr.scatterT]
+  rw [hk, getD_map _ _ _ (by rw [Bcsr.scatterT_size, Array.size_map, hs0]; exact hq),
+    Bcsr.scatterT_getD h hbh hbw _ _ (by rw [Array.size_map, hs0]; exact hq),
+    getD_map _ _ _ (by rw [hs0]; exact hq), initR_getD _ _ _ _ _ _ _ hq]
+  split
+  · ring
+  · field_simp
+    ring
+
+/-- all `SparseMatrixBCSR::apply(r, x)` / `apply_transposed(r, x)` overloads (scalar or blocked vectors reach the
+    same kernel on the pod arrays) at ℚ: exact, including the `used_elements() == 0` early-out. -/
+theorem C01.bcsr_applyQ_spec (A : Bcsr Rat) (hA : A.wf = true) (hbh : 0 < A.bh) (hbw : 0 < A.bw)
+    (x r : Array Rat) (tr : Bool)
+    (hr : r.size = if tr then A.cols * A.bw else A.rows * A.bh)
+    (hx : x.size = if tr then A.rows * A.bh else A.cols * A.bw) :
+    ∃ r', A.applyQ x r tr = some r' ∧
+      ∀ i, i < (if tr then A.cols * A.bw else A.rows * A.bh) → r'.getD i 0 =
+        (if tr then ∑ k ∈ range (A.rows * A.bh), A.entry k i * x.getD k 0
+         else ∑ k ∈ range (A.cols * A.bw), A.entry i k * x.getD k 0) := by
+  have h := (Bcsr.wf_iff A).mp hA
+  have ht0 := C01.tinyRat_zero_one.1
+  by_cases h0 : A.usedElements = 0
+  · refine ⟨Array.replicate r.size 0, by cases tr <;> simp_all [Bcsr.applyQ, Bcsr.apply], ?_⟩
+    intro i hi
+    rw [getD_replicate _ _ (by rw [hr]; exact hi)]
+    cases tr <;> simp [Bcsr.entry_eq_zero_of_empty h h0]
+  · cases tr
+    · simp only [Bool.false_eq_true, if_false] at hr hx ⊢
+      refine ⟨A.kernel (tinyRat epsQ) 1 0 x r r true, by simp [Bcsr.applyQ, Bcsr.apply, hr, hx, h0], ?_⟩
+      intro i hi
+      rw [C01.bcsr_kernel_eq (tinyRat epsQ) A hA hbh hbw 1 0 x r r true i hi, ht0]
+      simp
+    · simp only [if_true] at hr hx ⊢
+      refine ⟨A.kernelT (tinyRat epsQ) 1 0 x r r true, by simp [Bcsr.applyQ, Bcsr.apply, hr, hx, h0], ?_⟩
+      intro j hj
+      rw [C01.bcsrT_kernel_eq (tinyRat epsQ) A hA hbh hbw 1 0 one_ne_zero x r r true hr hr j hj, ht0]
+      simp
+
+/-- all five `(r, x, y)` vector-kind overloads of `SparseMatrixBCSR::apply(r, x, y, alpha)` and of
+    `apply_transposed` at ℚ, `|alpha| ≥ eps`: `r = y + alpha·A x` (resp. `Aᵀ`), with or without `r` aliasing `y`. -/
+theorem C01.bcsr_applyAxpyQ_spec (A : Bcsr Rat) (hA : A.wf = true) (hbh : 0 < A.bh) (hbw : 0 < A.bw)
+    (x y r : Array Rat) (alpha : Rat) (hal : epsQ ≤ |alpha|) (ali tr : Bool)
+    (hr : r.size = if tr then A.cols * A.bw else A.rows * A.bh)
+    (hy : y.size = if tr then A.cols * A.bw else A.rows * A.bh)
+    (hx : x.size = if tr then A.rows * A.bh else A.cols * A.bw) (hry : ali = true → r = y) :
+    ∃ r', A.applyAxpyQ x y r alpha ali tr = some r' ∧
+      ∀ i, i < (if tr then A.cols * A.bw else A.rows * A.bh) → r'.getD i 0 = y.getD i 0 + alpha *
+        (if tr then ∑ k ∈ range (A.rows * A.bh), A.entry k i * x.getD k 0
+         else ∑ k ∈ range (A.cols * A.bw), A.entry i k * x.getD k 0) := by
+  have h := (Bcsr.wf_iff A).mp hA
+  have ht1 := C01.tinyRat_zero_one.2
+  have ht : tinyRat epsQ alpha = false := by
+    rw [Bool.eq_false_iff]; intro h; exact absurd ((C01.tinyRat_iff _ _).mp h) (not_lt.mpr hal)
+  have ha0 : alpha ≠ 0 := by
+    intro h0; rw [h0, C01.tinyRat_zero_one.1] at ht; exact Bool.noConfusion ht
+  have hyy : (if ali then r else y) = y := by
+    cases ali
+    · rfl
+    · exact hry rfl
+  by_cases h0 : A.usedElements = 0
+  · refine ⟨if ali then r else y, by cases tr <;> simp_all [Bcsr.applyAxpyQ, Bcsr.applyAxpy], ?_⟩
+    intro i hi
+    rw [hyy]
+    cases tr <;> simp [Bcsr.entry_eq_zero_of_empty h h0]
+  · cases tr
+    · simp only [Bool.false_eq_true, if_false] at hr hy hx ⊢
+      refine ⟨A.kernel (tinyRat epsQ) alpha 1 x y r ali,
+        by simp [Bcsr.applyAxpyQ, Bcsr.applyAxpy, hr, hy, hx, h0, ht], ?_⟩
+      intro i hi
+      rw [C01.bcsr_kernel_eq (tinyRat epsQ) A hA hbh hbw alpha 1 x y r ali i hi, hyy, ht1]
+      simp; ring
+    · simp only [if_true] at hr hy hx ⊢
+      refine ⟨A.kernelT (tinyRat epsQ) alpha 1 x y r ali,
+        by simp [Bcsr.applyAxpyQ, Bcsr.applyAxpy, hr, hy, hx, h0, ht], ?_⟩
+      intro j hj
+      rw [C01.bcsrT_kernel_eq (tinyRat epsQ) A hA hbh hbw alpha 1 ha0 x y r ali hr hy j hj, hyy, ht1]
+      simp; ring
+
+/-- `DenseMatrix::apply(r, x)` / `apply_transposed(r, x)` at ℚ for a non-empty matrix: exact. -/
+theorem C01.dense_applyQ_spec (A : Dense Rat) (x r : Array Rat) (tr : Bool) (hne : 0 < A.rows ∧ 0 < A.cols)
+    (hr : r.size = if tr then A.cols else A.rows) (hx : x.size = if tr then A.rows else A.cols) :
+    ∃ r', A.applyQ x r tr = some r' ∧
+      ∀ i, i < (if tr then A.cols else A.rows) → r'.getD i 0 =
+        (if tr then ∑ k ∈ range A.rows, A.entry k i * x.getD k 0 else ∑ k ∈ range A.cols, A.entry i k * x.getD k 0) := by
+  have ht0 := C01.tinyRat_zero_one.1
+  obtain ⟨h1, h2⟩ := hne
+  cases tr
+  · simp only [Bool.false_eq_true, if_false] at hr hx ⊢
+    refine ⟨A.kernel (tinyRat epsQ) 1 0 x r r true, ?_, ?_⟩
+    · simp [Dense.applyQ, Dense.apply, hr, hx]; omega
+    · intro i hi
+      rw [C01.dense_kernel_eq (tinyRat epsQ) A 1 0 x r r true i hi, ht0]
+      simp
+  · simp only [if_true] at hr hx ⊢
+    refine ⟨A.kernelT (tinyRat epsQ) 1 0 x r r true, ?_, ?_⟩
+    · simp [Dense.applyQ, Dense.apply, hr, hx]; omega
+    · intro i hi
+      rw [C01.dense_kernelT_eq (tinyRat epsQ) A 1 0 x r r true i hi, ht0]
+      simp
+
+/-- every well-formed CSR leaf of a meta-matrix meets the `apply` specification in both directions -/
+theorem C01.meta_leaf_csr (A : Csr Rat) (hA : A.wf = true) : (MetaMat.csr A).Ok := by
+  constructor
+  · intro ax x y r ali h1 h2 h3 h4 h5
+    cases ax with
+    | none =>
+      obtain ⟨r', e, v⟩ := C01.csr_applyQ_spec A hA x r false h2 h4
+      refine ⟨r', e, by simpa [MetaMat.rows, MetaMat.cols] using Csr.apply_size _ A x r r' false e, ?_⟩
+      intro i hi
+      rw [v i hi]; simp [baseOf, MetaMat.dot, MetaMat.entry, MetaMat.cols]
+    | some al =>
+      obtain ⟨r', e, v⟩ := C01.csr_applyAxpyQ_spec A hA x y r al (h1 al rfl) ali false h2 (h3 rfl) h4 h5
+      refine ⟨r', e, by simpa [MetaMat.rows, MetaMat.cols] using Csr.applyAxpy_size _ A x y r r' al ali false e, ?_⟩
+      intro i hi
+      rw [v i hi]; simp [baseOf, MetaMat.dot, MetaMat.entry, MetaMat.cols]
+  · intro ax x y r ali h1 h2 h3 h4 h5
+    cases ax with
+    | none =>
+      obtain ⟨r', e, v⟩ := C01.csr_applyQ_spec A hA x r true h2 h4
+      refine ⟨r', e, by simpa [MetaMat.rows, MetaMat.cols] using Csr.apply_size _ A x r r' true e, ?_⟩
+      intro i hi
+      rw [v i hi]; simp [baseOf, MetaMat.dot, MetaMat.entry, MetaMat.rows]
+    | some al =>
+      obtain ⟨r', e, v⟩ := C01.csr_applyAxpyQ_spec A hA x y r al (h1 al rfl) ali true h2 (h3 rfl) h4 h5
+      refine ⟨r', e, by simpa [MetaMat.rows, MetaMat.cols] using Csr.applyAxpy_size _ A x y r r' al ali true e, ?_⟩
+      intro i hi
+      rw [v i hi]; simp [baseOf, MetaMat.dot, MetaMat.entry, MetaMat.rows]
+
+theorem C01.meta_leaf_bcsr (A : Bcsr Rat) (hA : A.wf = true) (hbh : 0 < A.bh) (hbw : 0 < A.bw) :
+    (MetaMat.bcsr A).Ok := by
+  constructor
+  · intro ax x y r ali h1 h2 h3 h4 h5
+    cases ax with
+    | none =>
+      obtain ⟨r', e, v⟩ := C01.bcsr_applyQ_spec A hA hbh hbw x r false h2 h4
+      refine ⟨r', e, by simpa [MetaMat.rows, MetaMat.cols] using Bcsr.apply_size _ A x r r' false e, ?_⟩
+      intro i hi
+      rw [v i hi]; simp [baseOf, MetaMat.dot, MetaMat.entry, MetaMat.cols]
+    | some al =>
+      obtain ⟨r', e, v⟩ := C01.bcsr_applyAxpyQ_spec A hA hbh hbw x y r al (h1 al rfl) ali false h2 (h3 rfl) h4 h5
+      refine ⟨r', e, by simpa [MetaMat.rows, MetaMat.cols] using Bcsr.applyAxpy_size _ A x y r r' al ali false e, ?_⟩
+      intro i hi
+      rw [v i hi]; simp [baseOf, MetaMat.dot, MetaMat.entry, MetaMat.cols]
+  · intro ax x y r ali h1 h2 h3 h4 h5
+    cases ax with
+    | none =>
+      obtain ⟨r', e, v⟩ := C01.bcsr_applyQ_spec A hA hbh hbw x r true h2 h4
+      refine ⟨r', e, by simpa [MetaMat.rows, MetaMat.cols] using Bcsr.apply_size _ A x r r' true e, ?_⟩
+      intro i hi
+      rw [v i hi]; simp [baseOf, MetaMat.dot, MetaMat.entry, MetaMat.rows]
+    | some al =>
+      obtain ⟨r', e, v⟩ := C01.bcsr_applyAxpyQ_spec A hA hbh hbw x y r al (h1 al rfl) ali true h2 (h3 rfl) h4 h5
+      refine ⟨r', e, by simpa [MetaMat.rows, MetaMat.cols] using Bcsr.applyAxpy_size _ A x y r r' al ali true e, ?_⟩
+      intro i hi
+      rw [v i hi]; simp [baseOf, MetaMat.dot, MetaMat.entry, MetaMat.rows]
+
+theorem C01.meta_leaf_dense (A : Dense Rat) (_hA : A.wf = true) (h1r : 0 < A.rows) (h1c : 0 < A.cols) :
+    (MetaMat.dense A).Ok := by
+  constructor
+  · intro ax x y r ali h1 h2 h3 h4 h5
+    cases ax with
+    | none =>
+      obtain ⟨r', e, v⟩ := C01.dense_applyQ_spec A x r false ⟨h1r, h1c⟩ h2 h4
+      refine ⟨r', e, by simpa [MetaMat.rows, MetaMat.cols] using Dense.apply_size _ A x r r' false e, ?_⟩
+      intro i hi
+      rw [v i hi]; simp [baseOf, MetaMat.dot, MetaMat.entry, MetaMat.cols]
+    | some al =>
+      obtain ⟨r', e, v⟩ := C01.dense_applyAxpyQ_spec A x y r al (h1 al rfl) ali false ⟨h1r, h1c⟩ h2 (h3 rfl) h4 h5
+      refine ⟨r', e, by simpa [MetaMat.rows, MetaMat.cols] using Dense.applyAxpy_size _ A x y r r' al ali false e, ?_⟩
+      intro i hi
+      rw [v i hi]; simp [baseOf, MetaMat.dot, MetaMat.entry, MetaMat.cols]
+  · intro ax x y r ali h1 h2 h3 h4 h5
+    cases ax with
+    | none =>
+      obtain ⟨r', e, v⟩ := C01.dense_applyQ_spec A x r true ⟨h1r, h1c⟩ h2 h4
+      refine ⟨r', e, by simpa [MetaMat.rows, MetaMat.cols] using Dense.apply_size _ A x r r' true e, ?_⟩
+      intro i hi
+      rw [v i hi]; simp [baseOf, MetaMat.dot, MetaMat.entry, MetaMat.rows]
+    | some al =>
+      obtain ⟨r', e, v⟩ := C01.dense_applyAxpyQ_spec A x y r al (h1 al rfl) ali true ⟨h1r, h1c⟩ h2 (h3 rfl) h4 h5
+      refine ⟨r', e, by simpa [MetaMat.rows, MetaMat.cols] using Dense.applyAxpy_size _ A x y r r' al ali true e, ?_⟩
+      intro i hi
+      rw [v i hi]; simp [baseOf, MetaMat.dot, MetaMat.entry, MetaMat.rows]
+
+/-- **Meta-matrices** (`PowerRow/Col/Diag/FullMatrix`, `TupleMatrix(Row)`, `SaddlePointMatrix`, arbitrarily nested over
+    CSR / BCSR / dense leaves): by structural induction over the first/rest recursion, every `apply` member
+    (`ax = none`: `apply(r, x)`; `ax = some alpha`, `|alpha| ≥ eps`: `apply(r, x, y, alpha)`; `tr`: transposed; with or
+    without `r` aliasing `y`) returns normally with the product of the **block matrix of its parts**
+    (`MetaMat.entry`) on the concatenated Tuple/Power vectors. -/
+theorem C01.metamat_apply_eq (M : MetaMat Rat) (hM : M.wf = true) (tr : Bool) (ax : Option Rat)
+    (hax : ∀ al, ax = some al → epsQ ≤ |al|) (x y r : Array Rat) (ali : Bool)
+    (hr : r.size = if tr then M.cols else M.rows) (hy : ax.isSome = true → y.size = if tr then M.cols else M.rows)
+    (hx : x.size = if tr then M.rows else M.cols) (hry : ali = true → r = y) :
+    ∃ r', M.goQ tr ax x y r ali = some r' ∧ r'.size = (if tr then M.cols else M.rows) ∧
+      ∀ i, i < (if tr then M.cols else M.rows) → r'.getD i 0 =
+        (match ax with | none => 0 | some _ => y.getD i 0) + ax.getD 1 *
+          (if tr then ∑ k ∈ range M.rows, M.entry k i * x.getD k 0 else ∑ k ∈ range M.cols, M.entry i k * x.getD k 0) := by
+  have ok := MetaMat.ok_of_leaves C01.meta_leaf_csr C01.meta_leaf_bcsr C01.meta_leaf_dense M hM
+  cases tr
+  · simp only [Bool.false_eq_true, if_false] at hr hy hx ⊢
+    obtain ⟨r', e1, e2, e3⟩ := ok.1 ax x y r ali hax hr hy hx hry
+    exact ⟨r', e1, e2, fun i hi => by rw [e3 i hi]; cases ax <;> simp [baseOf, MetaMat.dot]⟩
+  · simp only [if_true] at hr hy hx ⊢
+    obtain ⟨r', e1, e2, e3⟩ := ok.2 ax x y r ali hax hr hy hx hry
+    exact ⟨r', e1, e2, fun i hi => by rw [e3 i hi]; cases ax <;> simp [baseOf, MetaMat.dot]⟩
+
+/-- **`r` is overwritten, never accumulated** (plain product, every leaf format): `apply(r, x)` / `apply_transposed(r, x)`
+    return the same vector whatever `r` held before (stale data, the harness pre-fills 777) — the kernels run with
+    `b = 0`, which zeroes `r` first. The operands `x`, `y` and the matrix are values of the functional model and cannot
+    be modified; the harness' `U1` flag checks the same for the real containers on every case. -/
+theorem C01.apply_overwrites_r {α : Type} [Field α] (tiny : α → Bool) (ht0 : tiny 0 = true)
+    (x r r2 : Array α) (hs : r.size = r2.size) (tr : Bool) :
+    (∀ A : Csr α, A.apply tiny x r tr = A.apply tiny x r2 tr) ∧
+    (∀ A : Cscr α, A.apply tiny x r tr = A.apply tiny x r2 tr) ∧
+    (∀ A : Bcsr α, A.apply tiny x r tr = A.apply tiny x r2 tr) ∧
+    (∀ A : Banded α, A.apply tiny x r tr = A.apply tiny x r2 tr) ∧
+    (∀ A : Dense α, A.apply tiny x r tr = A.apply tiny x r2 tr) := by
+  refine ⟨?_, ?_, ?_, ?_, ?_⟩
+  · intro A; cases tr <;> simp [Csr.apply, Csr.kernel, initR, ht0, hs]
+  · intro A; cases tr <;> simp [Cscr.apply, Cscr.kernel, initR, ht0, hs]
+  · intro A; cases tr <;> simp [Bcsr.apply, Bcsr.kernel, Bcsr.kernelT, initR, ht0, hs]
+  · intro A; cases tr <;> simp [Banded.apply, Banded.kernel, initR, ht0, hs]
+  · intro A; cases tr <;> simp [Dense.apply, Dense.kernel, Dense.kernelT, initR, ht0, hs]
+
+/-- the axpy forms with a separate result vector (`r` is not `y`): the result does not depend on the old content of
+    `r` either (`copy(r, y)` resp. zero fill before the kernel loop) -/
+theorem C01.axpy_ignores_old_r {α : Type} [Field α] (tiny : α → Bool) (x y r r2 : Array α) (hs : r.size = r2.size)
+    (alpha : α) (tr : Bool) :
+    (∀ A : Csr α, A.applyAxpy tiny x y r alpha false tr = A.applyAxpy tiny x y r2 alpha false tr) ∧
+    (∀ A : Cscr α, A.applyAxpy tiny x y r alpha false tr = A.applyAxpy tiny x y r2 alpha false tr) ∧
+    (∀ A : Bcsr α, A.applyAxpy tiny x y r alpha false tr = A.applyAxpy tiny x y r2 alpha false tr) ∧
+    (∀ A : Banded α, A.applyAxpy tiny x y r alpha false tr = A.applyAxpy tiny x y r2 alpha false tr) ∧
+    (∀ A : Dense α, A.applyAxpy tiny x y r alpha false tr = A.applyAxpy tiny x y r2 alpha false tr) := by
+  refine ⟨?_, ?_, ?_, ?_, ?_⟩
+  · intro A; cases tr <;> simp [Csr.applyAxpy, Csr.kernel, initR, hs]
+  · intro A; cases tr <;> simp [Cscr.applyAxpy, Cscr.kernel, initR, hs]
+  · intro A; cases tr <;> simp [Bcsr.applyAxpy, Bcsr.kernel, Bcsr.kernelT, initR, hs]
+  · intro A; cases tr <;> simp [Banded.applyAxpy, Banded.kernel, initR, hs]
+  · intro A; cases tr <;> simp [Dense.applyAxpy, Dense.kernel, Dense.kernelT, initR, hs]
 
 /-- a non-trivial well-formed value: the 2×3 matrix [[1,0,2],[0,3,0]] -/
 example : (⟨2, 3, #[0, 2, 3], #[0, 2, 1], #[1, 2, 3]⟩ : Csr Rat).wf = true := by decide +kernel
